@@ -406,19 +406,19 @@ InitMovie ==
          inp = [mode |-> Mode, method |-> method, rm |-> FALSE, prec |-> prec, prior |-> prior,
                 useDesc |-> useDesc, lab |-> lab, x3 |-> x3, ext |-> ext, bins |-> bins,
                 tv |-> [t \in 1..NT |-> TimeVals[t]]]
+\* the admissible designs (labels, folds); constant-level definitions, so TLC computes them once
+DesignsExplicit == {d \in [1..NObs -> Lab] \X [1..NObs -> 1..NFold] : FoldBalanced(d[1], d[2])}
+DesignsDefault == {<<lab, DefaultFoldOf(lab)>> :
+                     lab \in {l \in [1..NObs -> Lab] : DefaultAdmissible(l) /\ Range(DefaultFoldOf(l)) \subseteq 1..NFold}}
 InitCv ==
   \E method \in Methods, rm \in RMs, prec \in PrecSet, fprec \in FPrecSet, prior \in PriorSet,
      foldsrc \in FoldSrcs :
     /\ OptOk(method, rm, prec, prior)
     /\ (fprec # <<>> => method = "crossnobis" /\ prec = <<>>)
-    /\ \E lab \in [1..NObs -> Lab], fold \in [1..NObs -> 1..NFold] :
-         /\ IF foldsrc = "default"
-            THEN fold = DefaultFoldOf(lab) /\ DefaultAdmissible(lab)
-            ELSE FoldBalanced(lab, fold)
-         /\ \E x \in MatSet(NObs) :
-              inp = [mode |-> Mode, method |-> method, rm |-> rm, prec |-> prec, prior |-> prior,
-                     useDesc |-> TRUE, lab |-> lab, x |-> x, fold |-> fold, foldsrc |-> foldsrc,
-                     fprec |-> fprec]
+    /\ \E d \in (IF foldsrc = "default" THEN DesignsDefault ELSE DesignsExplicit), x \in MatSet(NObs) :
+         inp = [mode |-> Mode, method |-> method, rm |-> rm, prec |-> prec, prior |-> prior,
+                useDesc |-> TRUE, lab |-> d[1], x |-> x, fold |-> d[2], foldsrc |-> foldsrc,
+                fprec |-> fprec]
 
 Init == /\ CASE Mode = "single" -> InitSingle
              [] Mode = "list" -> InitList
